@@ -25,10 +25,6 @@ M("C05", "server-accept-dup", A,
 M("C05", "no-nak", A,
   "            segack = SegmentAckPDU(1, 0, self.invokeID, self.lastSequenceNumber, self.actualWindowSize)\n            self.request(segack)\n            return",
   "            return", "C05.R4", "out-of-order segment silently dropped, no negative ack")
-M("C05", "append-after-deliver", A,
-  "        # add the data\n        self.append_segment(apdu)\n\n        # update the sequence number\n        self.lastSequenceNumber = (self.lastSequenceNumber + 1) % 256\n\n        # last segment?\n        if not apdu.apduMor:\n            if _debug: ClientSSM",
-  "        # update the sequence number\n        self.lastSequenceNumber = (self.lastSequenceNumber + 1) % 256\n\n        # last segment?\n        if not apdu.apduMor:\n            if _debug: ClientSSM",
-  None, "segment never appended", allow_error=True)
 M("C05", "deliver-early", A,
   "        elif apdu.apduSeq == ((self.initialSequenceNumber + self.actualWindowSize) % 256):\n            if _debug: ClientSSM._debug(\"    - last segment in the group\")\n\n            self.initialSequenceNumber = self.lastSequenceNumber",
   "        elif apdu.apduSeq == ((self.initialSequenceNumber + self.actualWindowSize) % 256):\n            if _debug: ClientSSM._debug(\"    - last segment in the group\")\n            self.response(self.segmentAPDU)\n            self.initialSequenceNumber = self.lastSequenceNumber",
